@@ -1240,4 +1240,4 @@ mod test_path_to_term {
 
 #[cfg(kani)]
 #[path = "/verif/kani/hpoterm.rs"]
-mod verif_kani;
+pub(crate) mod verif_kani;
